@@ -112,6 +112,14 @@ func HostileExtension(r *Rng, c *Chain, v *ValKeys, honest []byte) []byte {
 		}
 		return b
 	}
+	// when there is something to attest, half of the hostile extensions name a foreign snapshot in their FIRST
+	// attestation: an entry that cannot be stored, followed (in commit order) by entries that can
+	if len(ext.OracleAttestations) > 0 && r.Chance(0.5) {
+		// (replacing the first one: more attestations than requests are refused by VerifyVoteExtension)
+		ext.OracleAttestations[0] = app.OracleAttestation{Snapshot: junk(32), Attestation: junk(64)}
+		bz, _ := json.Marshal(ext)
+		return bz
+	}
 	switch r.Pick(14) {
 	case 0:
 		return nil
